@@ -123,6 +123,8 @@ def err_kind(exc):
             return "cannotConvertDms"
         if msg.startswith("could not convert string to float"):
             return "floatParse"
+        if msg.startswith("Timezone '") and msg.endswith("' not recognized"):
+            return "bareValueError"        # the model's kind for the zone setter's documented error
         if ("must be in 0..23" in msg or "must be in 0..59" in msg
                 or "must be in 0..999999" in msg):
             return "timeFieldRange"
